@@ -1,4 +1,5 @@
 import SockModel.Model.TlsLemmas
+import SockModel.Model.HsLemmas
 /-!
 # C18  TLS sockets encrypt, need a TLS peer, and always complete the handshake
 
@@ -862,28 +863,120 @@ theorem legacy_round_limit_violates {W : World ω} (C : Cfg) (hfix : C.fixRoundR
 example : WriteProgress idleEngine := by
   intro s d; exact .ret ⟨1, rfl, by decide⟩
 
+end SockModel.Tls
+
 /-! ## "the handshake ... completes for every combination of sync/async endpoints, timeout modes and order of calls"
 
-NOT PROVED as a single liveness theorem.  The intended statement (DESIGN §5 C18, kept here verbatim in intent):
+FULL STATEMENT (not proved; DESIGN §5 C18):
 
-  theorem handshake_completes (with the reference engine `HsEngine`: flights C→S, S→C, C→S, then application
-  data, each flight a byte string that may arrive in any segmentation):
-    for every pairing of {sync, async} endpoints, every timeout mode on each side, every order of the two sides'
-    first calls and every segmentation of the flights on the wire, after finitely many calls / driver steps both
-    engines are `init_finished` (measure: undelivered handshake bytes + flights remaining), after which
-    tlsRead/tlsWrite refine receive/send.
+  theorem handshake_completes : for every pairing of {sync, async} endpoints, every timeout mode on each side
+  (unlimited, zero, limited), every order in which the two sides first send or receive, every segmentation of the
+  flights on the wire and every behaviour of the kernel's send buffers (partial / refused writes), after finitely many
+  calls / driver steps of a fair schedule both engines are `init_finished`, and thereafter `tlsRead`/`tlsWrite`
+  refine the plain `receive`/`send` (so that C01, C02, C03, C07, C15 hold unchanged).
 
-What this file does carry towards it, for EVERY engine (not only a reference engine):
-* `pollout_protocol`, `pollout_restored`, `driverQuery_protocol` - the driver keeps polling for what the handshake
-  needs and queued data cannot be stranded behind it (the async half of the argument);
-* `receive_leaves_no_stale_want_read`, `send_leaves_no_stale_want_write` - a call that finds nothing to do never
-  poisons the next call in the other direction (the two ways the polling call orders used to deadlock, F7/F10);
-* `tlsWrite_complete` - a Send is not cut short by the round limit (F9);
-* `tlsWrite_retry_same_data` - retries are well-formed, so the engine can always continue where it stopped.
-The composition of two endpoints over a channel with `HsEngine` (the expected fallback
-`handshake_completes_partial`: both endpoints synchronous, unlimited or zero timeout) was not reached.  Completion of
-the handshake for all pairings / timeout modes / call orders / segmentations is therefore established only by the
-implementation matrix of `./check C18` (enumerated completely in the thorough tier: every case must end with both
-sides `init_finished` and both payloads delivered), against real OpenSSL. -/
+PROVED below: `handshake_completes_partial` - the restriction to
+  * both endpoints **synchronous**, every call with **timeout 0**,
+  * the **round-robin polling schedule** `[c.Send(dc,0), s.Receive(n,0), s.Send(ds,0), c.Receive(n,0)]` (the call
+    shape on which the pre-319faf2 / pre-ee81033 code stalled after the handshake),
+  * the **reference engine** `Hs.engine` (three flights of arbitrary positive sizes `k1 k2 k3`),
+  * a **healthy channel**: two FIFO byte counters, every write accepted in full, reads cut by an arbitrary
+    segmentation oracle (any list of cut points),
+for the REAL glue model (`Tls.sendT` / `Tls.receiveT` with their retry loops, `HandleLastError` gating, `pendingSend`
+rule - not a simplification), any `Cfg` with at least two handshake rounds (in particular the current code and all
+three legacy variants: the repairs concern the payload phase, see the `legacy_*_violates` theorems above).
+Still resting on the exhaustive implementation matrix of `./check C18` only: asynchronous endpoints, unlimited and
+limited timeouts, other call orders, short / refused writes, and the agreement of `Hs.engine` with OpenSSL. -/
+namespace SockModel.Hs
+open SockModel.Net SockModel.Tls
 
+/-- (a) progress: one round of the polling schedule keeps the invariant, never increases the measure
+`mu` = work left on both sides, and strictly decreases it while the handshake is unfinished; stages only advance. -/
+theorem round_progress (C : Cfg) (hC : 1 < C.stepsMax) (P : HsP) (dc ds : Bytes) (hdc : dc ≠ []) (hds : ds ≠ [])
+    (n : Nat) (hn : 1 ≤ n) (y : Sys) (hinv : SysInv P dc ds y) :
+    SysInv P dc ds (y.round C P dc ds n) ∧ mu P (y.round C P dc ds n) ≤ mu P y ∧
+    (¬ y.bothFinished → mu P (y.round C P dc ds n) < mu P y) ∧
+    y.ec.stage ≤ (y.round C P dc ds n).ec.stage ∧ y.es.stage ≤ (y.round C P dc ds n).es.stage := by
+  obtain ⟨i1, e1, w1, p1, c1, s1⟩ := stepC_spec C hC P dc ds hdc n hn y hinv (.send dc) (Or.inl rfl)
+  obtain ⟨i2, e2, w2, p2, c2, s2⟩ := stepS_spec C hC P dc ds hds n hn _ i1 (.recv n) (Or.inr rfl)
+  obtain ⟨i3, e3, w3, p3, c3, s3⟩ := stepS_spec C hC P dc ds hds n hn _ i2 (.send ds) (Or.inl rfl)
+  obtain ⟨i4, e4, w4, p4, c4, s4⟩ := stepC_spec C hC P dc ds hdc n hn _ i3 (.recv n) (Or.inr rfl)
+  have q4 := congrArg (work P) e4; have q3 := congrArg (work P) e3
+  have q2 := congrArg (work P) e2; have q1 := congrArg (work P) e1
+  have t4 := congrArg Hs.stage e4; have t3 := congrArg Hs.stage e3
+  have t2 := congrArg Hs.stage e2; have t1 := congrArg Hs.stage e1
+  unfold Sys.round mu
+  refine ⟨i4, by omega, ?_, by omega, by omega⟩
+  intro hnf
+  rcases can_progress P dc ds y hinv hnf with hc | hs
+  · have := p1 hc; omega
+  · have hs' : CanProg false (y.step C P true (.send dc)).es (y.step C P true (.send dc)).ch := by
+      rw [e1]
+      obtain ⟨h1, h2⟩ := hs
+      refine ⟨h1, ?_⟩
+      rcases h2 with h2 | h2
+      · exact Or.inl h2
+      · right; simp only [Chan.inb, Bool.false_eq_true, if_false] at h2 ⊢; omega
+    have := p2 hs'
+    omega
+
+theorem rounds_progress (C : Cfg) (hC : 1 < C.stepsMax) (P : HsP) (dc ds : Bytes) (hdc : dc ≠ []) (hds : ds ≠ [])
+    (n : Nat) (hn : 1 ≤ n) : ∀ (k : Nat) (y : Sys), SysInv P dc ds y →
+      SysInv P dc ds (Sys.rounds C P dc ds n k y) ∧
+      ((Sys.rounds C P dc ds n k y).bothFinished ∨ mu P (Sys.rounds C P dc ds n k y) + k ≤ mu P y) ∧
+      (y.bothFinished → (Sys.rounds C P dc ds n k y).bothFinished) := by
+  intro k
+  induction k with
+  | zero => intro y h; exact ⟨h, Or.inr (by simp [Sys.rounds]), fun h => h⟩
+  | succ k ih =>
+    intro y h
+    obtain ⟨r1, r2, r3, r4, r5⟩ := round_progress C hC P dc ds hdc hds n hn y h
+    obtain ⟨j1, j2, j3⟩ := ih _ r1
+    have keep : y.bothFinished → (y.round C P dc ds n).bothFinished := by
+      intro hb; exact ⟨by have := hb.1; omega, by have := hb.2; omega⟩
+    refine ⟨j1, ?_, fun hb => j3 (keep hb)⟩
+    simp only [Sys.rounds]
+    rcases j2 with j2 | j2
+    · exact Or.inl j2
+    · by_cases hb : y.bothFinished
+      · exact Or.inl (j3 (keep hb))
+      · right; have := r3 hb; omega
+
+/-- **handshake_completes_partial** (restriction: both endpoints synchronous, timeout 0, round-robin polling
+schedule, reference engine, healthy channel - see the section comment for the full statement).
+For all flight sizes, all payloads (non-empty), all receive sizes ≥ 1, **every segmentation** of the wire, and every
+glue configuration with at least two handshake rounds: after at most `2·(k1+k2+k3+3)` rounds of
+`[c.Send(dc,0), s.Receive(n,0), s.Send(ds,0), c.Receive(n,0)]` - and after any larger number - both engines are
+`init_finished`, and (b) **no call on the way threw or hit an assert** (`faults = 0`). -/
+theorem handshake_completes_partial (C : Cfg) (hC : 1 < C.stepsMax) (P : HsP) (dc ds : Bytes) (hdc : dc ≠ [])
+    (hds : ds ≠ []) (n : Nat) (hn : 1 ≤ n) (segs : List Nat) (m : Nat) (hm : 2 * (P.k1 + P.k2 + P.k3 + 3) ≤ m) :
+    (Sys.rounds C P dc ds n m (Sys.init P segs)).bothFinished ∧
+    (Sys.rounds C P dc ds n m (Sys.init P segs)).faults = 0 := by
+  obtain ⟨h1, h2, _⟩ := rounds_progress C hC P dc ds hdc hds n hn m _ (sysInv_init P dc ds segs)
+  refine ⟨?_, h1.2.2.2.2.2.2⟩
+  rcases h2 with h2 | h2
+  · exact h2
+  · have hmu : mu P (Sys.init P segs) = 2 * (P.k1 + P.k2 + P.k3 + 3) := by
+      simp only [mu, Sys.init, work_init]; omega
+    rw [hmu] at h2
+    have h0 : mu P (Sys.rounds C P dc ds n m (Sys.init P segs)) = 0 := by omega
+    have zero_fin : ∀ h : Hs, work P h = 0 → 3 ≤ h.stage := by
+      intro h hw
+      unfold work at hw
+      by_cases a0 : h.stage = 0
+      · simp [a0] at hw
+      · by_cases a1 : h.stage = 1
+        · simp [a1] at hw
+        · by_cases a2 : h.stage = 2
+          · simp [a2] at hw
+          · omega
+    unfold mu at h0
+    exact ⟨zero_fin _ (by omega), zero_fin _ (by omega)⟩
+
+/-- the theorem applies to the code as it is (`handshakeStepsMax` as extracted from the source on this run) -/
+example : 1 < Cfg.current.stepsMax := by decide
+
+end SockModel.Hs
+
+namespace SockModel.Tls
 end SockModel.Tls
